@@ -363,7 +363,9 @@ func checkIterator(c *Check, pg *PG, lit *Term) {
 		return
 	}
 	bundle := strings.TrimSuffix(base, ".BaseCRL.RevokedCertificateEntries")
-	yield := func(x string) LP { return CallKey("dyn(p0, &" + x + "[rk(" + x + ")])") }
+	yield := func(x string) LP {
+		return AnyOf(CallKey("dyn(p0, &re("+x+"))"), CallKey("dyn(p0, &"+x+"[rk("+x+")])"))
+	}
 	c.perIteration(ipg, "O-C10.6", "every base entry is yielded", "each base entry is handed to the scan", base, yield(base))
 	c.perIteration(ipg, "O-C10.6", "every delta entry is yielded", "each delta entry is handed to the scan", delta, yield(delta))
 	c.mustPass(ipg, "O-C10.6", "base entries before delta entries", "the first delta entry", edgeTargets(ipg, RangeNext(delta)), RangeDone(base))
